@@ -19,7 +19,7 @@ func defaultConfig(tier string) *Config {
 		CrossEvery:  25,
 		PerQueryMs:  20000,
 		Solvers:     []string{"z3new", "cvc5", "z3"},
-		ArithSolver: []string{"cvc5int", "z3new", "cvc5"},
+		ArithSolver: []string{"z3lia", "cvc5lia", "cvc5int", "z3new"},
 	}
 }
 
@@ -88,8 +88,8 @@ func cmdRun(args []string) {
 }
 
 func printStats(st *HarnessStats) {
-	fmt.Printf("== %s: paths=%d decisions=%d infeasible=%d obligations=%d discharged=%d bymodel=%d unknown=%d steps=%d maxdepth=%d wall=%.1fs\n",
-		st.Name, st.Paths, st.Decisions, st.Infeasible, st.Obligations, st.Discharged, st.ByModel, st.UnknownObl, st.Steps, st.MaxDepth, st.Wall.Seconds())
+	fmt.Printf("== %s: paths=%d decisions=%d infeasible=%d obligations=%d discharged=%d bymodel=%d unknown=%d steps=%d maxdepth=%d ifconv=%d specabort=%d wall=%.1fs\n",
+		st.Name, st.Paths, st.Decisions, st.Infeasible, st.Obligations, st.Discharged, st.ByModel, st.UnknownObl, st.Steps, st.MaxDepth, st.IfConverted, st.SpecAborts, st.Wall.Seconds())
 	for _, k := range sortedKeys(st.Reach) {
 		fmt.Printf("   reach %-40s %d\n", k, st.Reach[k])
 	}
